@@ -550,6 +550,97 @@ pub fn xml_faults(part: &str, data: &[u8], caps: &Caps, ch: &mut Chooser) -> Vec
     v
 }
 
+const STR_ATTRS: [&str; 22] = [
+    "Target", "Id", "r:id", "name", "displayName", "ref", "t", "s", "si", "numFmtId", "formatCode", "state", "Type", "date1904", "headerRowCount", "totalsRowCount",
+    "table:name", "table:formula", "office:value-type", "table:style-name", "manifest:full-path", "text:c",
+];
+
+/// String-valued attributes that steer lookups (relationship targets and ids, sheet and table
+/// names, cell types, style references): empty, path-like, very long, non-UTF-8, entity-laden.
+pub fn xml_string_attr_faults(part: &str, data: &[u8], caps: &Caps, ch: &mut Chooser) -> Vec<StoredFault> {
+    let mut v = Vec::new();
+    let mut seen: std::collections::HashMap<String, usize> = std::collections::HashMap::new();
+    let n = data.len();
+    let mut i = 0;
+    while i < n {
+        if data[i] != b'<' {
+            i += 1;
+            continue;
+        }
+        let end = match data[i..].iter().position(|c| *c == b'>') {
+            Some(p) => i + p,
+            None => break,
+        };
+        let tag = &data[i + 1..end];
+        let name_end = tag.iter().position(|c| c.is_ascii_whitespace() || *c == b'/').unwrap_or(tag.len());
+        let tname = String::from_utf8_lossy(&tag[..name_end]).into_owned();
+        let mut j = i + 1 + name_end;
+        while j < end {
+            while j < end && (data[j].is_ascii_whitespace() || data[j] == b'/') {
+                j += 1;
+            }
+            let ns = j;
+            while j < end && data[j] != b'=' && !data[j].is_ascii_whitespace() {
+                j += 1;
+            }
+            let aname = String::from_utf8_lossy(&data[ns..j]).into_owned();
+            while j < end && data[j] != b'"' && data[j] != b'\'' {
+                j += 1;
+            }
+            if j >= end {
+                break;
+            }
+            let q = data[j];
+            let vs = j + 1;
+            let ve = match data[vs..end].iter().position(|c| *c == q) {
+                Some(p) => vs + p,
+                None => break,
+            };
+            if STR_ATTRS.contains(&aname.as_str()) {
+                let key = format!("{}@{}", tname, aname);
+                let c = seen.entry(key.clone()).or_insert(0);
+                if *c < caps.tokens_per_key {
+                    *c += 1;
+                    let orig = String::from_utf8_lossy(&data[vs..ve]).into_owned();
+                    let long = "A".repeat(6000);
+                    let pool: Vec<Vec<u8>> = vec![
+                        b"".to_vec(),
+                        b"x".to_vec(),
+                        b"/".to_vec(),
+                        b"../".to_vec(),
+                        b"../../../../x".to_vec(),
+                        b"xl/".to_vec(),
+                        long.into_bytes(),
+                        vec![0xFF, 0xFE, 0x41],
+                        b"&amp;#0;&lt;".to_vec(),
+                        b"&bogus;".to_vec(),
+                        b"18446744073709551616".to_vec(),
+                        b"-1".to_vec(),
+                    ];
+                    let take = if caps.token_values >= 12 { pool.len() } else { 5 };
+                    let start = (hbytes(key.as_bytes()) % pool.len() as u64) as usize;
+                    for k in 0..take {
+                        let val = &pool[(start + k * 5) % pool.len()];
+                        if val.as_slice() == orig.as_bytes() {
+                            continue;
+                        }
+                        let pack = if ch.chance(1, 2) { Pack::Deflated } else { Pack::Stored };
+                        v.push(StoredFault {
+                            layer: Layer::ZipPart { part: part.to_string(), pack },
+                            edit: Some(Edit::Insert { off: vs, bytes: val.clone() }),
+                            why: format!("xml:string-attr {} {} {:?} -> {:?}", part, key, crate::wb::clip(&orig, 40), crate::wb::clip(&String::from_utf8_lossy(val), 24)),
+                        });
+                        v.push(StoredFault { layer: Layer::ZipPart { part: part.to_string(), pack }, edit: Some(Edit::Delete { off: vs, len: ve - vs }), why: "+".into() });
+                    }
+                }
+            }
+            j = ve + 1;
+        }
+        i = end + 1;
+    }
+    v
+}
+
 /// Closing tags whose removal leaves the parser looking for them until end of input.
 pub fn xml_tag_faults(part: &str, data: &[u8], caps: &Caps) -> Vec<StoredFault> {
     let mut v = Vec::new();
@@ -915,6 +1006,7 @@ pub fn sites(fx: &Fixture, parts: &mut Parts, tier: Tier) -> Vec<SiteGroup> {
             }
             if is_xml_part(n) {
                 push(None, xml_faults(n, &data, &caps, &mut ch), &mut all);
+                push(None, xml_string_attr_faults(n, &data, &caps, &mut ch), &mut all);
                 push(None, xml_tag_faults(n, &data, &caps), &mut all);
                 push(None, part_truncations(n, &data, &caps, &mut ch), &mut all);
                 push(None, part_flips(n, &data, caps.flips / 2, &mut ch), &mut all);
